@@ -224,6 +224,29 @@ def run_case(case, rng):
                         case.check(np.allclose(ev, want, rtol=1e-12, atol=1e-12),
                                    "state_estimator_vec-stale-after-in-place-belief-update",
                                    lambda: f"b={b!r} a={a!r} o={o!r}: {np.asarray(ev).tolist()!r} want {want.tolist()!r}", **facts)
+    # ---- the same for the dictionary versions: ONE belief dictionary revised in place between calls -----------------------
+    if len(beliefs) >= 2:
+        from msdm.core.distributions import DictDistribution as _DD
+        live = _DD({})
+        for a in A[:2]:
+            for b in beliefs[:4]:
+                live.clear()
+                live.update({s_: p_ for s_, p_ in b.items()})
+                pref = B.predictive_obs(sp, b, a, emitted)
+                pod = case.call("predictive_observation_dist(same dict, revised in place)", pomdp.predictive_observation_dist, live, a, facts=facts)
+                case.count("dict_beliefs_revised_in_place")
+                if pod is not case.FAIL:
+                    g_ = dict(pod.items())
+                    case.check(all(_close(float(g_.get(o, 0.0)), pref[o]) for o in emitted),
+                               "predictive_observation_dist-stale-after-in-place-belief-update", lambda: f"b={b!r} a={a!r}: {g_!r} want {pref!r}", **facts)
+                for o in emitted[:2]:
+                    post, po = B.posterior(sp, b, a, o)
+                    ed = case.call("state_estimator(same dict, revised in place)", pomdp.state_estimator, live, a, o, facts=facts)
+                    if ed is not case.FAIL:
+                        g_ = {s_: float(p_) for s_, p_ in ed.items() if p_ > 0}
+                        w_ = {s_: p_ for s_, p_ in post.items() if p_ > 0}
+                        case.check(set(g_) == set(w_) and all(_close(g_[k_], w_[k_]) for k_ in w_),
+                                   "state_estimator-stale-after-in-place-belief-update", lambda: f"b={b!r} a={a!r} o={o!r}: {g_!r} want {w_!r}", **facts)
     # ---- beliefs at the very edge of the simplex: a non-absorbing component too small to change a float sum ----------
     ab_states = [s for s in S if s in sp.flag]
     nab_states = [s for s in S if s not in sp.flag]
